@@ -442,7 +442,7 @@ func loadKnown(path string) ([]known, error) {
 			case "rule":
 				k.rule = v
 			case "key":
-				k.key = v
+				k.key = strings.ReplaceAll(v, "%20", " ")
 			}
 		}
 		out = append(out, k)
